@@ -7,9 +7,10 @@ EXPLANATION = (
     "C19: Pattern.set_via_fn / set_via_gen on patterns of concrete shape with symbolic previous content; the callable fails at a SYMBOLIC cell "
     "(line, track) / the generator at a SYMBOLIC yield index (or never).  Failure => contents byte-identical to before and the same note objects; "
     "success => exactly the supplied notes installed, untouched cells keep their content, and every note's .pattern is the pattern (so note.project / "
-    "note.mod keep working).  Two successive bulk edits are covered by chaining."
+    "note.mod keep working).  Two successive bulk edits are covered by chaining; history.2x2.* runs two edits of SYMBOLIC kind (function / generator), each failing at a symbolic point or not, "
+    "against a cell-by-cell model after every step (a failed edit must leave no trace in the next one)."
 )
-BOUNDS = {"quick": {"shapes": "1x1, 2x2, 3x2 (lines x tracks), attached and not attached", "failure position": "every cell / every yield index / never (symbolic)", "content": "vel/ctl/val of every cell symbolic"},
+BOUNDS = {"quick": {"shapes": "1x1, 2x2, 3x2 (lines x tracks), attached and not attached", "failure position": "every cell / every yield index / never (symbolic)", "content": "vel/ctl/val of every cell symbolic", "histories": "2x2, two edits, kind x failure point of each symbolic (100 combinations)"},
           "thorough": {"shapes": "all lines x tracks <= 3x3", "failure position": "as quick", "content": "as quick"}}
 OUTSIDE = ["patterns larger than 3x3", "more than two successive bulk edits"]
 ASSUMPTIONS = ["the supplied callable returns fresh Note objects (documented contract: 'expected to return a Note')"]
